@@ -1,6 +1,7 @@
 #!/bin/bash
 # run_seeds.sh [ids...] : apply each stored seeded mutation to /repo, run the check of its property (+C12/C14 when relevant), undo; write seeded/detection.json
 cd /verif
+export VERIF_EVIDENCE_DIR=/tmp/verif-seed-evidence; mkdir -p $VERIF_EVIDENCE_DIR
 python3 - "$@" <<'PY'
 import json, os, subprocess, sys, re
 ids = sys.argv[1:] or sorted(os.listdir('/verif/seeded'))
